@@ -1,0 +1,22 @@
+//go:build verif
+
+package protogen
+
+// Accessor-name clash detection of the Hybrid/Opaque APIs (C42: generated names within a message
+// are pairwise distinct). The hook inserts "_" between the operation and the field name when an
+// accessor name equals a field name; which accessor names are looked up is the protocol checked
+// here: Set and Get for every field, and Has and Clear as well for EVERY field with presence -
+// oneof members included, because they get HasX/ClearX methods of their own. (The lookups
+// themselves go through a string-keyed map and string concatenation, which are not modelled.)
+//
+//@ pure protoreflect.FieldDescriptor.HasPresence
+
+// @ props C42
+// @ mode int
+// @ nopanic
+// @ site for _, method := range methods {...: iff(field.Desc.HasPresence(), len(methods) == 4) && iff(!field.Desc.HasPresence(), len(methods) == 2)
+// @ site for _, method := range methods {...: methods[0] == "Set" && methods[1] == "Get" && imp(len(methods) == 4, methods[2] == "Has" && methods[3] == "Clear")
+func contract_opaqueNewMessageHook(message *Message) {
+	modifiesAll()
+	return
+}
